@@ -406,7 +406,13 @@ def gen_history(rng, profile, faults=False, sweep=False, hostile=False, reuse=Fa
                 text, info = g["forced"], {"bomb": False, "out": ["X"], "src": "typed-seed"}
             elif damaged and g["dw"] and rng.random() < 0.7:
                 text = rng.choice(REUSE_PROGRAMS + ["entry parent offset", "entry child parent offset",
-                                                    "unit root child parent offset", "entry root offset"])
+                                                    "unit root child parent offset", "entry root offset"]
+                              # DIEs behind the damaged spot, reached by reference rather than by walking
+                              + ["entry @AT_type parent offset", "entry @AT_type parent", "entry @AT_sibling parent offset",
+                                 "entry @AT_specification parent offset", "entry @AT_abstract_origin parent offset",
+                                 "entry ?(offset 0x90 ?lt) @AT_type parent offset", "entry @AT_type root offset",
+                                 "entry @AT_type @AT_type parent offset", "entry attribute ?(form FORM_ref4 ?eq) value parent offset",
+                                 "entry @AT_const_value", "entry ?TAG_enumerator @AT_const_value", "entry attribute value"])
                 info = {"bomb": False, "out": ["X"], "src": "cache-dependent"}
             else:
                 text, info = choose_program(rng, g["types"], g["dw"])
@@ -670,6 +676,9 @@ def gen_history(rng, profile, faults=False, sweep=False, hostile=False, reuse=Fa
                 dq = b.q()
                 b.scripts[c].insert(pos, parse_step(c, dq, rng.choice(decoys)))
 
+    if not sweep and rng.random() < STORM_P:
+        add_storm(rng, b, parse_step, nclients)
+
     if faults:
         add_env_faults(rng, b, files, vals)
     if damaged:
@@ -700,6 +709,71 @@ def gen_history(rng, profile, faults=False, sweep=False, hostile=False, reuse=Fa
                 break
 
     return b.merge()
+
+
+STORM_P = float(os.environ.get("VERIF_STORM_P", "0.04"))
+STORM_REJECTS = ['"%( let %)"', '"a%( ) %)"', '"%( "%( nosuchword %)" %)"', '[ let ]', '{ let }', '(1, let)', '?( nosuchword )',
+                 'if let then 1 else 2', '(|A| B)', '[|A| let A := 1;]', '1 (2 nosuchword)*', '"%( 0b2 %)"', '"abc', '`',
+                 'let "a%sb" := 1;', '(1, 2) {A}', '"%( [ %)"', '"%( 1 %)" )', '[ "%( ( %)" ]']
+STORM_FAILS = ["drop", "1 2 drop drop drop", "\"%s\"", "[(1, 2) drop drop]", "{drop} apply", "(1, drop)", "\"%( drop %)\"",
+               "1 \"a\" add", "[1] 1 add", "1 elem", "if drop then 1 else 2", "1 (drop drop)*", "let A := drop; 1"]
+STORM_ABANDONS = ["(1, 2, 3)", "[1, 2, 3] elem", "\"abc\" elem", "(1, 2) \"%( (3, 4) %)\"", "[(1, 2, 3)] elem", "{(1, 2)} apply",
+                  "(1, 2) (3, 4)", "0 (1 add ?(5 ?lt))*", "(1 || 2) (3, 4)", "let A := (1, 2); A (5, 6)", "[1, 2] relem",
+                  "(1, 2, 3) ?(2 ?ge)", "if (1, 2) then (3, 4) else 5"]
+STORM_PROBES = ['"<%( 1 %)>"', '"%( "%( 2 %)" %)"', "[1, 2]", "{1} apply", "(1, 2)", "if ?(1 1 ?eq) then 1 else 2", "0 (1 add ?(3 ?lt))*",
+                "(|A| 1)", "let A := 1; A", "?(1)", "(1 || 2)", "[|A| 1]", "1 \"%s\"", "\"abc\" elem", "[1, 2] elem", "(1, 2) \"%( (3, 4) %)\""]
+
+
+def add_storm(rng, b, parse_step, nclients):
+    """The same unhappy thing a hundred times and more, then ordinary work:
+    whatever an error or abandonment path forgets to undo (a depth counter, a
+    slot in a table, a reference) adds up until a limit is reached."""
+    n = rng.choice([100, 101, 104, 128, 130, 200, 257, 300])
+    kind = rng.choice(["reject", "reject", "fail", "abandon"])
+    steps = []
+    if kind == "reject":
+        p = b.prog(rng.choice(STORM_REJECTS), rng.choice([0, 0, 1, 2]))
+        for _ in range(n):
+            steps.append(parse_step(0, b.q(), p))
+    else:
+        text = rng.choice(STORM_FAILS if kind == "fail" else STORM_ABANDONS)
+        q, i = b.q(), b.i()
+        steps.append(parse_step(0, q, b.prog(text, 0)))
+        steps.append(P.step(0, "MKIN", i))
+        fresh_q = rng.random() < 0.3
+        for _ in range(n):
+            if fresh_q:
+                q = b.q()
+                steps.append(parse_step(0, q, b.prog(text, 0)))
+            r = b.res()
+            steps.append(P.step(0, "EXEC", r, q, i))
+            for _ in range(1 if kind == "fail" else rng.choice([0, 1, 1, 2])):
+                steps.append(P.step(0, "PULL", r))
+            steps.append(P.step(0, "CANCEL", r))
+            if fresh_q:
+                steps.append(P.step(0, "DROPQ", q))
+    # afterwards: constructs of every kind are compiled and run once more
+    after = []
+    i0 = b.i()
+    after.append(P.step(0, "MKIN", i0))
+    for text in rng.sample(STORM_PROBES, 6):
+        q = b.q()
+        after.append(parse_step(0, q, b.prog(text, 0)))
+        r = b.res()
+        after.append(P.step(0, "EXEC", r, q, i0))
+        for _ in range(6):
+            after.append(P.step(0, "PULL", r))
+        after.append(P.step(0, "CANCEL", r))
+    if rng.random() < 0.5:
+        b.setup = steps + b.setup
+        b.epilogue = after + b.epilogue
+    else:
+        c = rng.randrange(nclients)
+        sc = b.scripts.setdefault(c, [])
+        pos = rng.randint(0, len(sc))
+        sc[pos:pos] = [dict(s, c=c) for s in steps]
+        b.epilogue = after + b.epilogue
+    b.plan["knobs"]["storm"] = n
 
 
 REUSE_PROGRAMS = ["entry ?root offset", "entry root offset", "entry parent offset", "entry ?(parent) root offset",
@@ -765,11 +839,17 @@ def gen_mustfail(rng, profile="C14"):
     for c in range(nclients):
         b.scripts[c] = []
     for _ in range(rng.choice([2, 3, 4, 6])):
-        text, exp = rng.choice(mustfail.TABLE)
         c = rng.randrange(nclients)
+        pre, ii = [], i
+        if rng.random() < 0.3:
+            text, items, exp = rng.choice(mustfail.TABLE_IN)
+            ii = b.i()
+            pre = [P.step(c, "MKIN", ii, *items)]
+        else:
+            text, exp = rng.choice(mustfail.TABLE)
         q = b.q()
         r = b.res()
-        st = [P.step(c, "PARSE", q, b.prog(text, rng.choice([0, 1, 2]))), P.step(c, "EXEC", r, q, i)]
+        st = pre + [P.step(c, "PARSE", q, b.prog(text, rng.choice([0, 1, 2]))), P.step(c, "EXEC", r, q, ii)]
         for e in exp:
             s = P.step(c, "PULL", r)
             s["expect"] = e
